@@ -22,7 +22,7 @@ OBJ_FILE = [('', 0), ('', 1), ('static', 0), ('static', 1), ('extern', 0), ('ext
             ('static _Thread_local', 0), ('static _Thread_local', 1), ('extern _Thread_local', 0)]
 OBJ_BLOCK = [('', 0), ('', 1), ('static', 0), ('static', 1), ('extern', 0), ('static _Thread_local', 1), ('extern _Thread_local', 0)]
 FN_FILE = [('', 0), ('', 1), ('static', 0), ('static', 1), ('extern', 0), ('extern', 1), ('inline', 0), ('inline', 1), ('extern inline', 0), ('extern inline', 1),
-           ('static inline', 0), ('static inline', 1), ('_Noreturn', 0)]
+           ('static inline', 0), ('static inline', 1), ('_Noreturn', 0), ('inline _Noreturn', 1), ('_Noreturn inline', 0), ('_Noreturn static inline', 1), ('extern _Noreturn inline', 1)]
 FN_BLOCK = [('', 0), ('extern', 0)]
 
 
